@@ -82,9 +82,9 @@ func c08Gen(r *rand.Rand, tier string) []Case {
 	out = append(out, Case{
 		"vgrant # k=5 off=-2 lockup=100000@0:7000000 vesting=1@0:7000000",
 		"vtime # dt=5",
-		"vunconv # k=5",
+		"vunconv ? ? # k=5",
 		"vspend ? ? ? ? ? # k=5 path=delegate-msg amt=B",
-		"vunconv # k=5",
+		"vunconv ? ? # k=5",
 		"vmon # k=5 path=undelegate amt=B",
 		"vspend ? ? ? ? ? # k=5 path=send amt=S+1",
 	})
@@ -152,7 +152,7 @@ func c08Gen(r *rand.Rand, tier string) []Case {
 				}
 			default:
 				if r.Intn(4) == 0 {
-					c = append(c, fmt.Sprintf("vunconv # k=%d", k))
+					c = append(c, fmt.Sprintf("vunconv ? ? # k=%d", k))
 				} else if r.Intn(3) == 0 {
 					c = append(c, fmt.Sprintf("vclaw # k=%d", k))
 				} else {
@@ -368,23 +368,31 @@ func c08Exec(c Case) (outs []string, fails []Failure, tags []string) {
 					}
 				}
 			case "vunconv":
-				// MsgConvertVestingAccount: back to a plain account, which drops the schedules
-				out = "skip"
+				// MsgConvertVestingAccount: back to a plain account, which drops the schedules.  Model: unconvertGuard
+				// (nothing unvested, nothing locked up — wherever the coins are); a plain account is refused.
 				addr := kr.GetAccAddr(k)
-				va0, ok := app.AccountKeeper.GetAccount(ctx, addr).(*vestingtypes.ClawbackVestingAccount)
-				if !ok {
-					return
-				}
 				now := ctx.BlockTime()
-				uv := va0.GetUnlockedCoins(now).Min(va0.GetVestedCoins(now))
-				held := va0.OriginalVesting.Sub(uv...) // still unvested or locked up, wherever the coins are at the moment
+				for len(f) < 3 || f[1] == "#" {
+					f = append([]string{f[0], "?", "?"}, f[1:]...)
+				}
+				f[1], f[2] = vmDumpAcct(ctx, addr), fmt.Sprint(now.Unix())
+				c[i] = strings.Join(f, " ")
+				va0, isVest := app.AccountKeeper.GetAccount(ctx, addr).(*vestingtypes.ClawbackVestingAccount)
 				cctx, write := ctx.CacheContext()
 				if _, err := app.VestingKeeper.ConvertVestingAccount(sdk.WrapSDKContext(cctx), vestingtypes.NewMsgConvertVestingAccount(addr)); err != nil {
+					out = "reject"
 					tags = append(tags, "unconvert-refused")
 					return
 				}
 				write()
+				out = "ok"
 				tags = append(tags, "unconvert-ok")
+				if !isVest {
+					fl("C08:became-plain-account-while-locked", "MsgConvertVestingAccount succeeded for an account that is not a vesting account")
+					return
+				}
+				uv := va0.GetUnlockedCoins(now).Min(va0.GetVestedCoins(now))
+				held := va0.OriginalVesting.Sub(uv...) // still unvested or locked up, wherever the coins are at the moment
 				if !held.IsZero() || c08GhostUnvested(k, now.Unix()).Sign() > 0 {
 					fl("C08:became-plain-account-while-locked", fmt.Sprintf("the vesting account was turned into a plain account although %s of its grant is still unvested or locked up (delegated: %s): once undelegated, those coins can leave", held, va0.DelegatedFree.Add(va0.DelegatedVesting...)))
 				}
